@@ -1279,6 +1279,82 @@ Section Flat.
     - rewrite (HF0 stk2 f' Hd2 (Hfr 0%nat)) by lia. reflexivity.
   Qed.
 
+  Lemma fresh_items_tn stk page : fresh_items (stk ++ [FTemplateName]) page = fresh_items stk page.
+  Proof.
+    unfold fresh_items. induction page as [|i page IH]; [reflexivity|]. cbn [forallb]. rewrite IH. f_equal.
+    destruct i as [c|[|n args]| | | |]; try reflexivity.
+    rewrite existsb_app. cbn [existsb]. rewrite !orb_false_r. reflexivity.
+  Qed.
+
+  Lemma page_result_app a b : page_result (a ++ b) = page_result a ++ page_result b.
+  Proof. unfold FlatCall.page_result. apply flat_map_app. Qed.
+
+  Lemma page_result_of_plain a : plain a = true -> page_result a = a.
+  Proof.
+    induction a as [|i a IH]; intros H; [reflexivity|]. cbn in H. apply andb_true_iff in H. destruct H as [Hi Ha].
+    destruct i; try discriminate Hi. unfold FlatCall.page_result in *. cbn [flat_map app]. rewrite (IH Ha). reflexivity.
+  Qed.
+
+  Lemma plain_flat a : plain a = true -> forallb flat_item a = true.
+  Proof.
+    induction a as [|i a IH]; intros H; [reflexivity|]. cbn in H. apply andb_true_iff in H. destruct H as [Hi Ha].
+    destruct i; try discriminate Hi. cbn [forallb FlatCall.flat_item]. rewrite (IH Ha). reflexivity.
+  Qed.
+
+  Theorem if_cond_calls cond more :
+    FlatCall.if_cond_calls_ok pfnames lib cond more = true -> o_parserfns opts = true -> o_tfn opts = [] -> o_pfn opts = [] ->
+    exists F, forall stk fuel, (length stk < 98)%nat -> fresh_items stk cond = true ->
+      forallb (fresh_items stk) more = true -> (F <= fuel)%nat ->
+      expand_T fuel stk true ((if_head ++ cond) :: more) = Some (FlatCall.if_cond_calls_result lib cond more).
+  Proof.
+    intros Hok Hpf Htfn Hpfn. unfold FlatCall.if_cond_calls_ok in Hok. apply andb_true_iff in Hok. destruct Hok as [Hc Hm].
+    assert (Hhead : forallb flat_item (if_head ++ cond) = true).
+    { rewrite forallb_app, Hc. reflexivity. }
+    destruct (expand_items_at (if_head ++ cond) Hhead Htfn Hpfn) as [Fc HFc].
+    destruct (expand_items_at (nth 0 more []) (nth_flat more 0 Hm) Htfn Hpfn) as [F0 HF0].
+    destruct (expand_items_at (nth 1 more []) (nth_flat more 1 Hm) Htfn Hpfn) as [F1 HF1].
+    set (cond' := page_result cond).
+    assert (Hc' : plain cond' = true) by (apply page_result_plain; exact Hc).
+    exists (Fc + length cond' + F0 + F1 + 20)%nat.
+    intros stk fuel Hdepth Hfc Hfresh Hf. destruct fuel as [|f]; [lia|]. destruct f as [|f']; [lia|].
+    rewrite expand_T_S. replace (Nat.leb 100 (length stk)) with false by (symmetry; apply Nat.leb_gt; lia).
+    assert (Hfr0 : fresh_items (stk ++ [FTemplateName]) (if_head ++ cond) = true).
+    { rewrite fresh_items_tn. unfold fresh_items. rewrite forallb_app. fold (fresh_items stk cond). rewrite Hfc. reflexivity. }
+    rewrite (HFc (stk ++ [FTemplateName]) (S f') ltac:(rewrite app_length; cbn; lia) Hfr0) by lia.
+    rewrite page_result_app, (page_result_of_plain if_head) by reflexivity. fold cond'.
+    cbv beta iota zeta. rewrite strip_if_head.
+    assert (Hcodes : codes (if_head ++ rstrip_i cond') = 35 :: 105 :: 102 :: 58 :: codes (rstrip_i cond')) by reflexivity.
+    rewrite Hcodes. cbn [index_of N.eqb Pos.eqb firstn skipn].
+    assert (Hcanon : Expand.canon_pf pfnames [35; 105; 102] = [35; 105; 102]).
+    { unfold Expand.canon_pf. cbn [collapse_ws_us is_space N.eqb orb]. destruct (in_names _ pfnames); reflexivity. }
+    replace (35 =? 58) with false by reflexivity. replace (105 =? 58) with false by reflexivity.
+    replace (102 =? 58) with false by reflexivity. replace (58 =? 58) with true by reflexivity.
+    cbv beta iota. cbn [firstn]. rewrite Hcanon.
+    assert (Hcl : Expand.classify_pf pfnames [35; 105; 102] = PfIf) by reflexivity. rewrite Hcl.
+    cbn [skipn if_head chars s_if map app].
+    rewrite expand_pf_S. rewrite Hpf. cbn [negb].
+    set (c0 := lstrip_i (rstrip_i cond')).
+    assert (Hc0 : plain c0 = true) by (apply plain_lstrip, plain_rstrip; exact Hc').
+    assert (Lc0 : (length c0 <= length cond')%nat).
+    { unfold c0, rstrip_i. assert (Ll : forall y, (length (lstrip_i y) <= length y)%nat).
+      { induction y as [|z y IHy]; [cbn; lia|]. cbn [lstrip_i]. destruct (sp_item z); cbn; lia. }
+      etransitivity; [apply Ll|]. rewrite rev_length. etransitivity; [apply Ll|]. rewrite rev_length. lia. }
+    cbn [nth].
+    rewrite (expand_recurse_plain pfnames lib opts c0 Hc0) by lia.
+    cbn [option_map].
+    assert (Hstrip : strip_i c0 = strip_i cond').
+    { unfold c0, strip_i. rewrite lstrip_idem, lstrip_rstrip_comm, rstrip_idem. reflexivity. }
+    rewrite Hstrip.
+    unfold FlatCall.if_cond_calls_result, FlatCall.if_calls_result. fold cond'.
+    set (stk2 := ((stk ++ [FFn [35; 105; 102]]) ++ [FFn [35; 105; 102]])).
+    assert (Hd2 : (length stk2 < 100)%nat) by (unfold stk2; rewrite !app_length; cbn; lia).
+    assert (Hfr : forall n, fresh_items stk2 (nth n more []) = true).
+    { intros n. unfold stk2. rewrite !fresh_items_fn. apply nth_fresh. exact Hfresh. }
+    destruct (strip_i cond') eqn:Es.
+    - rewrite (HF1 stk2 f' Hd2 (Hfr 1%nat)) by lia. reflexivity.
+    - rewrite (HF0 stk2 f' Hd2 (Hfr 0%nat)) by lia. reflexivity.
+  Qed.
+
   Theorem ifeq_calls x more :
     FlatCall.ifeq_calls_ok pfnames lib x more = true -> o_parserfns opts = true -> o_tfn opts = [] -> o_pfn opts = [] ->
     exists F, forall stk ea fuel, (length stk < 98)%nat -> forallb (fresh_items stk) more = true -> (F <= fuel)%nat ->
